@@ -36,11 +36,11 @@ def setup(mode):
 
 def jobs(tier, seed):
     out = []
-    kinds = ['int', 'Decimal', 'Fraction', 'str']
+    kinds = ['int', 'Decimal', 'Fraction', 'str', 'Decimal-trailing-zeros', 'str-trailing-zeros', 'Decimal-precision']
     i = 0
     for um in UMS_VALID:
         for fl in ('dec', 'frac'):
-            out.append({'fn': 'ctor', 'cfg': {'um': um, 'um_kind': kinds[i % 4], 'flav': fl},
+            out.append({'fn': 'ctor', 'cfg': {'um': um, 'um_kind': kinds[i % 7], 'flav': fl},
                         'opts': {'mag_range': MAG}})
             i += 1
     for um in UMS_INVALID + ['x', '']:
@@ -79,6 +79,12 @@ def _um(val, kind):
         return Decimal(val)
     if kind == 'Fraction':
         return Fraction(val)
+    if kind == 'Decimal-trailing-zeros':
+        return Decimal(val + ('.00' if '.' not in val else '0'))
+    if kind == 'str-trailing-zeros':
+        return val + '.000'
+    if kind == 'Decimal-precision':
+        return Decimal(int(val), 2)
     return val
 
 
